@@ -691,6 +691,13 @@ class Parser:
                 if tok.txt == '{':
                     # {...} protects space and ','
                     seq = self.arg_buffer(buf, 0).all()
+                    if buf.cur() is tok:
+                        # no closing brace: arg_buffer() has pushed back the
+                        # brace together with an error mark (issue 23);
+                        # take the brace as it stands
+                        val.append(tok)
+                        tok = buf.next()
+                        continue
                     if len(seq) == 1 and type(seq[0]) is defs.VoidToken:
                         # this was an empty {}
                         seq = []
